@@ -21,6 +21,9 @@ import WacModel.Program
     operands before the operation, explicit arguments before spreads (as the text says spreads
     "apply after"), name checks before the missing-argument check.
   * argument compatibility is component-model subtyping (`Kind.sub`), not described in LANGUAGE.md.
+  * type statements (here: `interface` declarations of functions) are WIT; a declared interface is
+    exported from the package under its name; "conflicting export" = an export taking the name of a
+    declaration (`ExportConflict`) or a declaration taking the name of an export (`DeclarationConflict`).
 -/
 namespace Wac.Lang.Spec
 open Wac.Lang
@@ -66,6 +69,7 @@ def externName : Prov → Option Str
   | .imp n => some n
   | .exportOf _ n => some n
   | .inst _ => none
+  | .defn _ => none
 
 /-- Inferred arguments, "in order of precedence". -/
 def inferredArgName (x : Str) (v : Val) (imports : List Str) : Str :=
@@ -249,19 +253,30 @@ where
       | none => .error (.packageMissingExport pkg s)
       | some k' => project pkg k' rest
 
-def importKind (lib : Lib) : ImportTy → Except Diag Kind
+def importKind (lib : Lib) (st : St) : ImportTy → Except Diag Kind
   | .path pkg ver segs => pathKind lib pkg ver segs
   | .func sig => .ok (.func sig)
-  | .iface fs => .ok (.inst none (Exports.ofList (fs.map fun (n, s) => (n, Kind.func s))))
+  | .iface fs => .ok (.inst none (funcsKind fs))
+  | .ident x =>
+    -- importing by a local name imports an item of the type the name denotes
+    match lookup st x with
+    | .error e => .error e
+    | .ok v => .ok v.kind.promote
 
 /-- "Items imported by a package path use the path as the name of the import"; otherwise "the
-    name of the import will be the same as the local name"; `as` renames. -/
-def importName (id : Str) (as : Option Str) (ty : ImportTy) : Str :=
+    name of the import will be the same as the local name"; `as` renames.  (An import by the local
+    name of an *instance* that has an interface path takes that path: not in LANGUAGE.md, read off
+    the implementation as a decision.) -/
+def importName (st : St) (id : Str) (as : Option Str) (ty : ImportTy) : Str :=
   match as with
   | some n => n
   | none =>
     match ty with
     | .path pkg ver segs => pathString pkg ver segs
+    | .ident x =>
+      match alGet x st.env with
+      | some v => (match v.kind with | .inst (some p) _ => p | _ => id)
+      | none => id
     | _ => id
 
 /-- `export e;` without `as` -/
@@ -270,25 +285,37 @@ def inferredExportName (v : Val) : Option Str :=
   | some p => some p
   | none => externName v.prov
 
+/-- an export may not take a name that denotes a type declared in the document -/
+def conflictsWithDeclaration (st : St) (name : Str) : Bool :=
+  match alGet name st.env with
+  | some v => (match v.prov with | .defn _ => true | _ => false)
+  | none => false
+
 def addExport (st : St) (name : Str) (v : Val) : Except Diag St :=
-  if alHas name st.exports then .error (.duplicateExport name)
+  if conflictsWithDeclaration st name then .error (.exportConflict name)
+  else if alHas name st.exports then .error (.duplicateExport name)
   else .ok { st with exports := st.exports ++ [(name, v.prov, v.kind)] }
 
 /-- "Spread exports will only create new exports that do not conflict with previously exported
     items": the exports of the instance in order, each under its own name unless that name is
     already exported; the flag tells whether anything was exported. -/
-def spreadExports (v : Val) : List (Str × Kind) → List (Str × Prov × Kind) → List (Str × Prov × Kind) × Bool
-  | [], exports => (exports, false)
+def spreadExports (st : St) (v : Val) : List (Str × Kind) → List (Str × Prov × Kind) →
+    Except Diag (List (Str × Prov × Kind) × Bool)
+  | [], exports => .ok (exports, false)
   | (n, k) :: rest, exports =>
-    if alHas n exports then spreadExports v rest exports
-    else ((spreadExports v rest (exports ++ [(n, Prov.exportOf v.prov n, k)])).1, true)
+    if alHas n exports then spreadExports st v rest exports
+    else if conflictsWithDeclaration st n then .error (.exportConflict n)
+    else
+      match spreadExports st v rest (exports ++ [(n, Prov.exportOf v.prov n, k)]) with
+      | .error e => .error e
+      | .ok (exports, _) => .ok (exports, true)
 
 def evalStmt (lib : Lib) (self : Str) (st : St) : Stmt → Except Diag St
   | .imp id as ty =>
-    match importKind lib ty with
+    match importKind lib st ty with
     | .error e => .error e
     | .ok k =>
-      let name := importName id as ty
+      let name := importName st id as ty
       if alHas name st.imports then .error (.duplicateImport name)
       else bind { st with imports := st.imports ++ [(name, k)] } id { prov := .imp name, kind := k }
   | .bind id e =>
@@ -313,9 +340,18 @@ def evalStmt (lib : Lib) (self : Str) (st : St) : Stmt → Except Diag St
       match v.kind.instExports with
       | none => .error (.notInstance .spread)
       | some es =>
-        let (exports, any) := spreadExports v es.toList st.exports
-        if !any then .error .spreadExportNoEffect
-        else .ok { st with exports := exports }
+        match spreadExports st v es.toList st.exports with
+        | .error e => .error e
+        | .ok (exports, any) =>
+          if !any then .error .spreadExportNoEffect
+          else .ok { st with exports := exports }
+  | .iface id funcs =>
+    -- a declared interface belongs to the package being defined: it is exported under its name,
+    -- which therefore must not be an export already
+    if alHas id st.exports then .error (.declarationConflict id)
+    else
+      let v : Val := { prov := .defn id, kind := .ifaceTy (some (declId self id)) (funcsKind funcs) }
+      bind { st with exports := st.exports ++ [(id, v.prov, v.kind)] } id v
 
 def evalStmts (lib : Lib) (self : Str) (st : St) : List Stmt → Except Diag St
   | [] => .ok st
